@@ -310,6 +310,8 @@ def main(chk, replay=None):
         chk.add_tlc(resC, 'Gen_C04[%dx%d,depth3,simulate]' % (R, C))
         replay_sim(chk, runner, resC)
         chk.extra['spec_vs_plain_ndarray_agreements'] = chk.extra.get('spec_vs_plain_ndarray_agreements', 0) + runner.spec_vs_numpy
+    from harness import session
+    session.run(chk, 'C04')          # spec/Session.tla: the property inside whole analysis sessions
     chk.exhaustive = True
 
 
